@@ -55,6 +55,7 @@ enum Kind {
     TupleAssign { elems: Vec<String>, rhs: String },
     RangeIdxCall { method: String, base: Rng, base_txt: String },
     BorrowMutIdx { recv: Rng },
+    Closure { body: Rng },
     Attr,
     Vis,
     Ident { name: String },
@@ -115,6 +116,10 @@ impl<'ast, 's> Visit<'ast> for Collect<'s> {
         let arms = n.arms.iter().map(|a| rng(&*a.body)).collect();
         self.push(Kind::Match { arms }, rng(n));
         visit::visit_expr_match(self, n);
+    }
+    fn visit_expr_closure(&mut self, n: &'ast syn::ExprClosure) {
+        self.push(Kind::Closure { body: rng(&*n.body) }, rng(n));
+        visit::visit_expr_closure(self, n);
     }
     fn visit_block(&mut self, n: &'ast syn::Block) {
         self.push(Kind::Block, rng(n));
@@ -426,6 +431,15 @@ fn resolve_anchor(loc: &Located, path: &str, what: &str) -> usize {
             scope = nd.r;
             cur_stmt = enclosing_stmt(&loc.nodes, nd.r);
             cur = Some(nd.clone());
+        } else if let Some(n) = parse_ord(p, "closure") {
+            let v = within(&loc.nodes, scope, &|k| matches!(k, Kind::Closure { .. }));
+            let nd = *v.get(n).unwrap_or_else(|| fail());
+            scope = match &nd.kind {
+                Kind::Closure { body } => *body,
+                _ => unreachable!(),
+            };
+            cur_stmt = enclosing_stmt(&loc.nodes, nd.r);
+            cur = Some(Node { kind: Kind::Block, r: scope });
         } else if let Some(n) = parse_ord(p, "arm") {
             match &cur {
                 Some(Node { kind: Kind::Match { arms }, .. }) => {
